@@ -154,12 +154,12 @@ pub fn run(ctx: &Ctx, ev: &mut Ev) {
             }
         }
     }
-    // (a3) dense: maximal-expansion streams of every length across the one-shot APIs' allocation decisions (first
+    // (a3) dense: maximal-expansion streams of every length (0..1500 quick, 0..3000 thorough, then both sides of powers of two / page multiples) across the one-shot APIs' allocation decisions (first
     // allocation = min(next_power_of_two(without-replacement bound), with-replacement bound), reserve + retry on
     // OutputFull), ending in tails that leave the converter owing output when the input runs out
     if ctx.want("dense") && !tiny {
         let sm = ctx.stride_mult() as usize;
-        let maxn: usize = if th { 6000 } else { 1500 };
+        let maxn: usize = if th { 3000 } else { 1500 };
         let near = |x: usize| -> bool { let mut p = 64usize; while p <= 1 << 17 { if x + 6 >= p && x <= p + 6 { return true; } p *= 2; } let m = x % 4096; x > 4000 && (m <= 6 || m >= 4090) };
         let encs: [&'static Encoding; 14] = [ISO_2022_JP, GB18030, GBK, UTF_16LE, UTF_16BE, UTF_8, EUC_KR, EUC_JP, SHIFT_JIS, BIG5, WINDOWS_1252, X_USER_DEFINED, REPLACEMENT, IBM866];
         for &enc in encs.iter() {
